@@ -47,3 +47,69 @@ MUTANTS: dict[str, list[dict]] = {
         M("stiff-dropped-c", "cli/gotran2c.py", "        delta=delta,\n        stiff_states=stiff_states,\n    )\n\n    code = codegen._format", "        delta=delta,\n    )\n\n    code = codegen._format", "R07.b"),
     ],
 }
+
+MUTANTS["C04"] = [
+    M("state-index-name-sorted", "codegen/base.py", "data={s.name: i for i, s in enumerate(self.ode.sorted_states())}", "data={s.name: i for i, s in enumerate(self.ode.states)}", "R04.a"),
+    M("monitor-index-remove-unused", "codegen/base.py", "        for x in self.ode.sorted_assignments(remove_unused=False):\n            if isinstance(x, (atoms.Intermediate, atoms.StateDerivative)):\n                data[x.name] = index", "        for x in self.ode.sorted_assignments(remove_unused=self.remove_unused):\n            if isinstance(x, (atoms.Intermediate, atoms.StateDerivative)):\n                data[x.name] = index", "R04.a"),
+    M("unpack-filter-before-enumerate", "codegen/base.py", "for i, state in enumerate(self.ode.sorted_states())\n            if not remove_unused or self._condition(state.name)", "for i, state in enumerate(s for s in self.ode.sorted_states() if not remove_unused or self._condition(s.name))", "R04.a"),
+    M("rhs-counter-outside-guard", "codegen/base.py", "                values_lst.append(self._doprint(values_idx[index], x.symbol))\n                index += 1\n\n        values = \"\\n\".join(values_lst)\n        code = self.template.method(\n            name=\"rhs\"", "                values_lst.append(self._doprint(values_idx[index], x.symbol))\n            index += 1\n\n        values = \"\\n\".join(values_lst)\n        code = self.template.method(\n            name=\"rhs\"", "R04.a"),
+    M("sort-reduced-set", "ode.py", "        names = sort_assignments(\n            assignments=self.intermediates + self.state_derivatives,", "        intermediates = self.intermediates\n        if remove_unused:\n            intermediates = tuple([a for a in intermediates if a.name in self.dependents()])\n        names = sort_assignments(\n            assignments=intermediates + self.state_derivatives,", "R04.a"),
+    M("init-names-from-name-sorted", "codegen/base.py", "state_names=[s.name for s in self.ode.sorted_states()],", "state_names=[s.name for s in self.ode.states],", "R04.a"),
+    M("states-matrix-name-sorted", "sympytools.py", "sympy.Matrix([state.symbol for state in ode.sorted_states()])", "sympy.Matrix([state.symbol for state in ode.states])", "R04.a"),
+    M("index-dict-swapped", "codegen/base.py", "data={s.name: i for i, s in enumerate(self.ode.parameters)}", "data={i: s.name for i, s in enumerate(self.ode.parameters)}", "R04.a2"),
+    M("state-index-calls-parameter-template", "codegen/base.py", "        code = self.template.state_index(\n", "        code = self.template.parameter_index(\n", "*"),
+    M("c-unknown-returns-0", "templates/c.py", 'indent("return -1;", "    ")', 'indent("return 0;", "    ")', "R04.b"),
+    M("py-index-get-default", "templates/python.py", "    return {name}[name]\n", "    return {name}.get(name, 0)\n", "R04.b"),
+    M("py-init-state-uses-parameter-index", "templates/python.py", "        {name}[state_index(key)] = value", "        {name}[parameter_index(key)] = value", "R04.b"),
+    M("jax-init-param-uses-state-index", "templates/jax.py", "{name}.at[parameter_index(key)].set(value)", "{name}.at[state_index(key)].set(value)", "R04.b"),
+    M("c-missing-index-monitor", "templates/c.py", 'return method_index(data, "missing")', 'return method_index(data, "monitor")', "R04.b"),
+    M("enum-missing-permutation", "codegen/base.py", '    pts = "pts"\n', "", "R04.c"),
+    M("argdict-swapped", "codegen/python.py", '            "s": "states",\n            "t": "t",\n            "p": "parameters",\n        }', '            "s": "parameters",\n            "t": "t",\n            "p": "states",\n        }', "R04.c"),
+    M("num-monitored-without-intermediates", "cli/gotran2c.py", "{ len(ode.state_derivatives) + len(ode.intermediates)}", "{ len(ode.state_derivatives)}", "R04.d"),
+    M("rhs-extent-params", "codegen/base.py", 'values_idx = sympy.IndexedBase("values", shape=(len(self.ode.state_derivatives),))', 'values_idx = sympy.IndexedBase("values", shape=(len(self.ode.parameters),))', "*"),
+]
+
+MUTANTS["C09"] = [
+    M("unsorted-deps", "ode.py", "sorter.add(assignment.name, *sorted(assignment.value.dependencies))", "sorter.add(assignment.name, *assignment.value.dependencies)", "R09.a"),
+    M("states-unsorted", "ode.py", "        return tuple(sorted(states, key=lambda x: x.name))", "        return tuple(states)", "R09.a"),
+    M("intermediates-noninjective-key", "ode.py", "        return tuple(sorted(intermediates, key=lambda x: x.name))", "        return tuple(sorted(intermediates, key=lambda x: x.name.lower()))", "R09.a"),
+    M("missing-variables-unsorted", "ode.py", "return {var: i for i, var in enumerate(sorted(variable_names))}", "return {var: i for i, var in enumerate(variable_names)}", "R09.a"),
+    M("codegen-iterates-dependents", "codegen/base.py", "            for i, param in enumerate(self.ode.parameters)\n            if self._condition(param.name)", "            for i, param in enumerate(self.ode.dependents())\n            if self._condition(param)", "R09.a"),
+    M("dedupe-via-set", "codegen/base.py", "state_names=[s.name for s in self.ode.sorted_states()],", "state_names=list({s.name for s in self.ode.sorted_states()}),", "R09.a"),
+    M("rename-in-place", "schemes.py", "    renamed.__module__ = func.__module__\n    return typing.cast(scheme_func, renamed)", "    func.__code__ = func.__code__.replace(co_name=scheme)\n    return func", "R09.b"),
+    M("module-level-cache", "schemes.py", "def list_schemes() -> list[str]:", "_CACHE: dict = {}\n\n\ndef _remember(k, v):\n    _CACHE[k] = v\n\n\ndef list_schemes() -> list[str]:", "R09.b"),
+]
+MUTANTS["C10"] = [
+    M("eq-text-order", "ode.py", "            and sorted_components(__o) == sorted_components(self)", "            and __o.components == self.components", "R10.a"),
+    M("states-in-component-order", "ode.py", "        states: set[atoms.State] = set()\n        for component in self.components:\n            states |= component.states\n        return tuple(sorted(states, key=lambda x: x.name))", "        out: list[atoms.State] = []\n        for component in self.components:\n            out.extend(sorted(component.states, key=lambda x: x.name))\n        return tuple(out)", "R10.a"),
+    M("assignments-per-component", "ode.py", "        names = sort_assignments(\n            assignments=self.intermediates + self.state_derivatives,", "        ordered: list[atoms.Assignment] = []\n        for component in self.components:\n            ordered.extend(sorted(component.assignments, key=lambda x: x.name))\n        names = sort_assignments(\n            assignments=ordered,", "R10.a"),
+    M("component-fields-tuples", "ode_component.py", "    states: frozenset[atoms.State] = attr.ib()\n    parameters: frozenset[atoms.Parameter] = attr.ib()\n    assignments: frozenset[atoms.Assignment] = attr.ib(init=False)", "    states: tuple[atoms.State, ...] = attr.ib()\n    parameters: frozenset[atoms.Parameter] = attr.ib()\n    assignments: frozenset[atoms.Assignment] = attr.ib(init=False)", "R10.b"),
+]
+MUTANTS["C12"] = [
+    M("sort-reduced-set", "ode.py", "        names = sort_assignments(\n            assignments=self.intermediates + self.state_derivatives,", "        intermediates = self.intermediates\n        if remove_unused:\n            intermediates = tuple([a for a in intermediates if a.name in self.dependents()])\n        names = sort_assignments(\n            assignments=intermediates + self.state_derivatives,", "R12.c"),
+    M("dependents-skip-derivatives", "ode.py", "                for dependency in assignment.value.dependencies:\n                    dependencies[dependency].add(assignment.name)", "                if isinstance(assignment, atoms.StateDerivative):\n                    continue\n                for dependency in assignment.value.dependencies:\n                    dependencies[dependency].add(assignment.name)", "R12.a"),
+    M("scheme-filters-states", "codegen/base.py", "        rhs = self._scheme_arguments(order)\n        states = self._state_assignments(rhs.states, remove_unused=False)", "        rhs = self._scheme_arguments(order)\n        states = self._state_assignments(rhs.states, remove_unused=self.remove_unused)", "R12.b"),
+    M("condition-on-intermediate-names", "codegen/base.py", "            self._condition = lambda x: x in self.deps\n", "            self._condition = lambda x: x in self.deps and not x.startswith(\"_\")\n", "R12.a"),
+    M("filter-drops-derivatives", "ode.py", "unused = {a.name for a in self.intermediates if a.name not in deps}", "unused = {a.name for a in self.intermediates + self.state_derivatives if a.name not in deps}", "R12.a"),
+    M("unpack-cache", "codegen/base.py", "    def _parameter_assignments(self, parameters: sympy.IndexedBase) -> str:\n        return", "    def _parameter_assignments(self, parameters: sympy.IndexedBase) -> str:\n        self._last_parameters = parameters\n        return", "R12.b"),
+]
+MUTANTS["C18"] = [
+    M("ode2c-drops-format", "cli/__init__.py", "        delta=delta,\n        format=format,\n    )\n\n\n@app.command()\ndef list_schemes", "        delta=delta,\n    )\n\n\n@app.command()\ndef list_schemes", "R18.a"),
+    M("convert-ignores-jax", "cli/__init__.py", "            backend=gotran2py.Backend.jax if jax else gotran2py.Backend.numpy,\n", "", "R18.a"),
+    M("ode2py-drops-delta", "cli/__init__.py", "        stiff_states=stiff_states,\n        delta=delta,\n        format=format,\n        backend=backend,", "        stiff_states=stiff_states,\n        format=format,\n        backend=backend,", "R18.a"),
+    M("main-crosses-options", "cli/gotran2py.py", "        stiff_states=stiff_states,\n        delta=delta,\n        backend=backend,\n    )\n    out = fname", "        stiff_states=stiff_states,\n        delta=1e-8,\n        backend=backend,\n    )\n    out = fname", "R18.a"),
+    M("write-before-generate", "cli/gotran2c.py", "    ode = load_ode(fname)\n    code = get_code(", "    out0 = fname if outname is None else Path(outname)\n    out0.with_suffix(suffix=suffix).write_text(\"\")\n    ode = load_ode(fname)\n    code = get_code(", "R18.b"),
+    M("swallow-errors", "cli/gotran2py.py", "    ode = load_ode(fname)\n\n    code = get_code(", "    try:\n        ode = load_ode(fname)\n    except Exception:\n        return\n\n    code = get_code(", "R18.b"),
+    M("config-wrong-table", "cli/__init__.py", "    c_config = config_data.get(\"c\", {})", "    c_config = config_data.get(\"python\", {})", "R18.c"),
+    M("config-overrides-explicit-path", "cli/utils.py", "    if path is None:\n        path = find_pyproject_toml_config()\n\n    # Return empty", "    path = find_pyproject_toml_config() or path\n\n    # Return empty", "R18.c"),
+    M("config-default-lost", "cli/__init__.py", "    delta = config_data.get(\"delta\", delta)\n    stiff_states = config_data.get(\"stiff_states\", stiff_states)\n    scheme = config_data.get(\"scheme\", scheme)\n    scheme = utils.validate_scheme(scheme)\n    py_config", "    delta = config_data.get(\"delta\", 1e-8)\n    stiff_states = config_data.get(\"stiff_states\", stiff_states)\n    scheme = config_data.get(\"scheme\", scheme)\n    scheme = utils.validate_scheme(scheme)\n    py_config", "R18.c"),
+    M("hybrid-loses-delta", "cli/utils.py", "            if \"rush_larsen\" in s.value:\n                kwargs[\"delta\"] = delta\n            if s.value == \"hybrid_rush_larsen\":\n                kwargs[\"stiff_states\"] = stiff_states", "            if s.value == \"hybrid_rush_larsen\":\n                kwargs[\"stiff_states\"] = stiff_states\n            elif \"rush_larsen\" in s.value:\n                kwargs[\"delta\"] = delta", "R18.a"),
+]
+MUTANTS["C20"] = [
+    M("rhs-matrix-name-sorted", "sympytools.py", "sympy.Matrix([state.expr for state in ode.sorted_state_derivatives()])", "sympy.Matrix([state.expr for state in ode.state_derivatives])", "R20.a"),
+    M("constant-bound", "sympytools.py", "def rhs_matrix(ode, max_tries: int | None = None)", "def rhs_matrix(ode, max_tries: int | None = 20)", "R20.b"),
+    M("raise-on-count", "sympytools.py", "    if has_intermediates(rhs):\n        raise RuntimeError", "    if num_tries == max_tries:\n        raise RuntimeError", "R20.b"),
+    M("partial-map", "sympytools.py", "intermediates = {x.symbol: x.expr for x in ode.intermediates}", "intermediates = {x.symbol: x.expr for x in ode.intermediates if x.expr.free_symbols}", "R20.b"),
+    M("jacobi-constant-bound", "sympytools.py", "    return rhs_matrix(ode).jacobian(states_matrix(ode))", "    return rhs_matrix(ode, max_tries=20).jacobian(states_matrix(ode))", "R20.b"),
+    M("jacobian-wrt-name-sorted", "sympytools.py", "    return rhs_matrix(ode).jacobian(states_matrix(ode))", "    return rhs_matrix(ode).jacobian(sympy.Matrix([s.symbol for s in ode.states]))", "R20.c"),
+]
